@@ -74,9 +74,12 @@ def main():
     inplace = "--inplace" in sys.argv
     results = []
     for pid in sorted(os.listdir(SEEDED)):
-        if not os.path.isdir(os.path.join(SEEDED, pid)) or (args and pid not in args):
+        if not os.path.isdir(os.path.join(SEEDED, pid)) or (
+                args and pid not in args and not any(a.startswith(pid + "/") for a in args)):
             continue
         for name in sorted(os.listdir(os.path.join(SEEDED, pid))):
+            if args and pid not in args and f"{pid}/{name}" not in args:
+                continue
             if os.path.exists(os.path.join(SEEDED, pid, name, "patch.diff")):
                 r = run_one(pid, name, inplace)
                 results.append(r)
@@ -86,8 +89,9 @@ def main():
     out = os.path.join(SEEDED, "RESULTS.json")
     old = []
     if os.path.exists(out) and args:
-        old = [r for r in json.load(open(out)) if r["property"] not in args]
-    json.dump(old + results, open(out, "w"), indent=1)
+        done = {(r["property"], r["name"]) for r in results}
+        old = [r for r in json.load(open(out)) if (r["property"], r["name"]) not in done]
+    json.dump(sorted(old + results, key=lambda r: (r["property"], r["name"])), open(out, "w"), indent=1)
 
 
 if __name__ == "__main__":
